@@ -29,7 +29,7 @@ from hsim.worlds.udp import Arrival, UdpWorld
 
 PROPERTY = "C07"
 CHUNK = {"quick": 16, "thorough": 40}
-PROBES = ["raise_then_later_hook_takes", "subscriber_take_then_addon_drop", "subscriber_take_then_command_channel",
+PROBES = ["plain_subscriber_raised", "raise_then_later_hook_takes", "subscriber_take_then_addon_drop", "subscriber_take_then_command_channel",
           "delayed_resend_of_copy", "two_rlv_commands_both_handled", "rlv_partially_handled",
           "truthy_with_pending_take", "packet_hook_swallowed", "illegal_followup_rejected", "lifecycle_hook_raised",
           "send_orig_by_addon", "mutated_forward", "take_false_subscriber_saw_original", "late_send_of_observed_original",
@@ -73,6 +73,9 @@ def gen_plan(rng: random.Random, tier: str) -> dict:
         "p_delay": rng.choice([0.0, 0.3]),
         "p_dup": rng.choice([0.0, 0.1]),
         "tail": 1.5,
+        # permanent plain subscribers on the session handler, in subscription order: a failing one must not
+        # keep the ones after it from being notified
+        "plain_subs": rng.choice([[], ["observe"], ["raise", "observe"], ["observe", "raise", "observe"]]),
     }
     quiet = rng.random() < 0.2   # mostly well-behaved addons
     steps = []
@@ -164,6 +167,8 @@ def simplify_step(step):
 def simplify_plan(plan):
     cfg = plan["cfg"]
     lr = cfg["lifecycle_raise"]
+    if cfg.get("plain_subs"):
+        yield {**plan, "cfg": {**cfg, "plain_subs": []}}
     for h, flags in lr.items():
         if any(flags):
             yield {**plan, "cfg": {**cfg, "lifecycle_raise": {**lr, h: [False] * len(flags)}}}
@@ -459,6 +464,21 @@ def run_plan(plan: dict) -> RunResult:
         model.assoc(viewer)
         driver = Driver(world, model, res)
         session = spec.session
+        observed: Dict[int, Dict[int, int]] = {}     # observer index -> tag -> calls
+
+        def make_plain(i, kind_):
+            def _h(msg):
+                tag = tag_of_message(msg)
+                if tag is None:
+                    return
+                rec.add(kind="plain_sub", idx=i, beh=kind_, tag=tag)
+                if kind_ == "raise":
+                    res.probe("plain_subscriber_raised")
+                    raise make_exc("ValueError", "plain message_handler subscriber")
+            return _h
+        for i, kind_ in enumerate(cfg.get("plain_subs", [])):
+            for nm in ("ChatFromViewer", "ChatFromSimulator"):
+                session.message_handler.subscribe(nm, make_plain(i, kind_))
 
         # ---------------- lifecycle isolation: handle_init / handle_session_init --------------------
         def check_lifecycle(hook, since):
@@ -712,6 +732,13 @@ def run_plan(plan: dict) -> RunResult:
             if got_seq != want_seq:
                 return violate("C07/isolation/hook-sequence", tag=tag, want=want_seq, got=got_seq,
                                escaped=repr(a.escaped)[:120] if a.escaped else None)
+            # ---- every permanent subscriber is notified exactly once, whatever the ones before it did --------
+            if not swallowed:
+                calls = [e["idx"] for e in entries if e["kind"] == "plain_sub"]
+                want_calls = list(range(len(cfg.get("plain_subs", []))))
+                if calls != want_calls:
+                    return violate("C07/isolation/subscriber-skipped", tag=tag, called=calls, want=want_calls,
+                                   subs=cfg.get("plain_subs"))
             # ---- exceptions must not escape a valid datagram's handling ------------------------------
             if a.escaped is not None:
                 takers = [e for e in entries if e["kind"] == "take" and e.get("effective")]
